@@ -95,7 +95,7 @@ def run_verus_part():
     path, log, expand_s = build_verus_unit()
     res = run_verus(path, timeout=900)
     text = open(path).read()
-    loc = Locator(text)
+    loc = Locator(text, path)
     st, fails, why = classify_verus(res, canary='__vacuity_canary')
     funcs = verus_functions(res)
     vr = (res['json'] or {}).get('verification-results') or {}
